@@ -72,7 +72,7 @@ def equivalence_family(tier):
     for name, op in [
         ("set_color_rt", "rgb.set_color(v // 4, w // 4, 7)"), ("set_color_lit", "rgb.set_color(10, 20, 30)"),
         ("on", "rgb.on()"), ("on_args", "rgb.on(1, 2, 3)"), ("off", "rgb.off()"),
-        ("fade_2", "rgb.fade(255, 0, 128, 100, 2)"), ("fade_rt", "rgb.fade(v // 4, 10, 0, 90, 3)"),
+        ("fade_2", "rgb.fade(255, 0, 128, 100, 2)"), ("fade_rt", "rgb.fade(v // 4, 10, 0, 90, 2)"), ("fade_3_lit", "rgb.fade(200, 100, 0, 90, 3)"),
         ("fade_zero_duration", "rgb.fade(9, 8, 7, 0, 4)"), ("fade_kw", "rgb.fade(1, 2, 3, duration_ms=50, steps=2)"),
         ("blink_1", "rgb.blink(255, 0, 64, 1, 40)"), ("blink_2_rt", "rgb.blink(v // 4, 0, 0, 2, w)"),
         ("blink_kw", "rgb.blink(5, 6, 7, times=2, delay_ms=30)"), ("blink_defaults", "rgb.blink(5, 6, 7)"),
